@@ -904,16 +904,6 @@ theorem zone_lt (n : Nat) (i : Int) : zone n i < 3 := by unfold zone; split_ifs 
 
 /-! ### the whole line through the block: the same march without the optical depth test -/
 
-/-- loop body when the target optical depth plays no role: always "photon leaves cell" -/
-def stepFree (b : Block K) (cells : Nat → Cell K) (ph : Photon K) (s : St K) : St K :=
-  leave ph s (geo b cells ph s)
-
-/-- `while (is_inside(three_index))` -/
-def marchFree (b : Block K) (cells : Nat → Cell K) (ph : Photon K) : Nat → St K → St K × Bool
-  | 0, s => (s, false)
-  | f + 1, s =>
-    if inside b.n s.idx then marchFree b cells ph f (stepFree b cells ph s) else (s, true)
-
 structure InvF (b : Block K) (cells : Nat → Cell K) (ph : Photon K) (p0 : V3 K) (s : St K) : Prop where
   inCell : InCell b s
   range : Range b s
@@ -1196,5 +1186,532 @@ theorem init_tau (h : Hyp b cells ph inDir) : (initSt b ph inDir).tauDone < ph.t
   show (0.0 : K) < ph.tau; rw [lit0]; exact h.valid.tau_pos
 
 end result
+
+/-! ### generic traversal: the loop from any admissible loop-entry state
+
+`interact` and `propagate` are `traverse` from `initSt` / `initStNoPin`; everything the property
+says follows from the loop invariant once the entry state is admissible (`Entry`). -/
+
+/-- admissible loop-entry state: index in range, position in the closed cell of the index, no
+optical depth used yet, nothing recorded yet -/
+structure Entry (b : Block K) (cells : Nat → Cell K) (ph : Photon K) (s0 : St K) : Prop where
+  inv : Inv b cells ph s0.pos s0
+  inRange : InRange b.n s0.idx
+  tau0 : s0.tauDone = 0
+  out0 : s0.out = []
+
+section generic
+variable (b : Block K) (cells : Nat → Cell K) (ph : Photon K) (s0 : St K)
+
+theorem tlast_eq : (traverse b cells ph s0).last = (march b cells ph (fuel b.n) s0).1 := rfl
+theorem tvisits_eq : (traverse b cells ph s0).visits = (traverse b cells ph s0).last.out.reverse := rfl
+theorem tfinished_eq : (traverse b cells ph s0).finished = (march b cells ph (fuel b.n) s0).2 := rfl
+theorem ttauLeft_eq : (traverse b cells ph s0).tauLeft = ph.tau - (traverse b cells ph s0).last.tauDone := rfl
+theorem tpos_eq (a : Ax) : (traverse b cells ph s0).pos.get a =
+    (traverse b cells ph s0).last.pos.get a + b.anchor.get a := by
+  simp [traverse]
+
+theorem tlast_inv (hv : Valid b cells ph) (he : Entry b cells ph s0) :
+    Inv b cells ph s0.pos (traverse b cells ph s0).last :=
+  march_inv b cells ph hv _ _ _ he.inv
+
+theorem entry_tau (hv : Valid b cells ph) (he : Entry b cells ph s0) : s0.tauDone < ph.tau := by
+  rw [he.tau0]; exact hv.tau_pos
+
+/-- **Termination is a theorem**: the loop of the traversal ends by its own condition within
+`nx + ny + nz + 1` evaluations of that condition (every pass that does not end the loop moves
+at least one index one step in its direction of travel). -/
+theorem trav_fuel_sufficient (hv : Valid b cells ph) (he : Entry b cells ph s0) :
+    (traverse b cells ph s0).finished = true := by
+  rw [tfinished_eq]
+  have hr := he.inRange
+  refine (march_finishes b cells ph hv _ _ _ (he.inv)).2
+    (entry_tau b cells ph s0 hv he) hr ?_
+  have := phi_le b ph (s0) hr
+  unfold fuel; push_cast; omega
+
+/-- the loop ended by its own condition: target reached or index outside -/
+theorem trav_last_done (hv : Valid b cells ph) (he : Entry b cells ph s0) :
+    ¬ ((traverse b cells ph s0).last.tauDone < ph.tau ∧
+        InRange b.n (traverse b cells ph s0).last.idx) :=
+  march_done b cells ph _ _ (trav_fuel_sufficient b cells ph s0 hv he)
+
+/-- **Path sum**: the final position is the (pinned) start position plus `Σ path · direction`,
+per coordinate; in absolute coordinates as well. -/
+theorem trav_path_sum (hv : Valid b cells ph) (he : Entry b cells ph s0) (a : Ax) :
+    (traverse b cells ph s0).last.pos.get a =
+        (s0).pos.get a + pathSum (traverse b cells ph s0).visits * ph.dir.get a
+    ∧ (traverse b cells ph s0).pos.get a =
+        ((s0).pos.get a + b.anchor.get a)
+          + pathSum (traverse b cells ph s0).visits * ph.dir.get a := by
+  have hl := (tlast_inv b cells ph s0 hv he).onLine a
+  rw [tvisits_eq, pathSum_reverse, tpos_eq, hl]
+  exact ⟨rfl, by ring⟩
+
+/-- every credited path length is non-negative -/
+theorem trav_path_nonneg (hv : Valid b cells ph) (he : Entry b cells ph s0) : ∀ v ∈ (traverse b cells ph s0).visits, 0 ≤ v.path := by
+  have hs := (tlast_inv b cells ph s0 hv he).segs
+  rw [tvisits_eq]
+  intro v hv
+  rw [List.mem_reverse] at hv
+  generalize (traverse b cells ph s0).last.out = l at hs hv
+  induction l with
+  | nil => cases hv
+  | cons u rest ih =>
+    rcases List.mem_cons.mp hv with rfl | hv
+    · exact hs.1.2.2.1
+    · exact ih hs.2 hv
+
+/-- hence **Σ path = straight-line distance** for a unit direction (sqrt-free form:
+`Σ path ≥ 0` and `(Σ path)² = |final − start|²`) -/
+theorem trav_path_sum_is_distance (hv : Valid b cells ph) (he : Entry b cells ph s0)
+    (hunit : ph.dir.x ^ 2 + ph.dir.y ^ 2 + ph.dir.z ^ 2 = 1) :
+    0 ≤ pathSum (traverse b cells ph s0).visits ∧
+    pathSum (traverse b cells ph s0).visits ^ 2 =
+      ((traverse b cells ph s0).last.pos.x - (s0).pos.x) ^ 2
+      + ((traverse b cells ph s0).last.pos.y - (s0).pos.y) ^ 2
+      + ((traverse b cells ph s0).last.pos.z - (s0).pos.z) ^ 2 := by
+  constructor
+  · have := trav_path_nonneg b cells ph s0 hv he
+    unfold pathSum
+    apply List.sum_nonneg
+    intro x hx
+    obtain ⟨v, hv, rfl⟩ := List.mem_map.mp hx
+    exact this v hv
+  · have hx := (trav_path_sum b cells ph s0 hv he .x).1
+    have hy := (trav_path_sum b cells ph s0 hv he .y).1
+    have hz := (trav_path_sum b cells ph s0 hv he .z).1
+    simp only [V3.get] at hx hy hz
+    rw [hx, hy, hz]
+    have : ∀ (S dx dy dz p q r : K), dx ^ 2 + dy ^ 2 + dz ^ 2 = 1 →
+        S ^ 2 = (p + S * dx - p) ^ 2 + (q + S * dy - q) ^ 2 + (r + S * dz - r) ^ 2 := by
+      intro S dx dy dz p q r hu
+      have : (p + S * dx - p) ^ 2 + (q + S * dy - q) ^ 2 + (r + S * dz - r) ^ 2
+          = S ^ 2 * (dx ^ 2 + dy ^ 2 + dz ^ 2) := by ring
+      rw [this, hu, mul_one]
+    exact this _ _ _ _ _ _ _ hunit
+
+/-- **Every visited cell contains its segment**: in order of traversal, with `S` the path
+travelled before the visit, the visited cell is a real cell of the block (`InRange`, one-index
+= `get_one_index`), and both end points `start + S·d` and `start + (S + path)·d` lie in the
+closed cell — the cell is convex, so the whole segment does. -/
+theorem trav_segments_in_cells (hv : Valid b cells ph) (he : Entry b cells ph s0) :
+    SegsFwd b ph (s0).pos 0 (traverse b cells ph s0).visits := by
+  rw [tvisits_eq]
+  exact segs_reverse b ph _ _ (tlast_inv b cells ph s0 hv he).segs
+
+/-- the exit classification of a packet that leaves is one of `1..26` -/
+theorem trav_outputDirection_valid (hv : Valid b cells ph) (he : Entry b cells ph s0)
+    (hout : ¬ InRange b.n (traverse b cells ph s0).last.idx) :
+    1 ≤ outputDirection b.n (traverse b cells ph s0).last.idx ∧
+    outputDirection b.n (traverse b cells ph s0).last.idx < 27 ∧
+    ∀ a, pinKind (outputDirection b.n (traverse b cells ph s0).last.idx).toNat a
+      = zone (b.n.get a) ((traverse b cells ph s0).last.idx.get a) := by
+  have hI := tlast_inv b cells ph s0 hv he
+  set i := (traverse b cells ph s0).last.idx with hi
+  unfold outputDirection
+  rw [exitMask_eq b.n i hv.n_pos (fun a => (hI.range a).1)]
+  have hz : ¬ ((zone b.n.x i.x) = 0 ∧ (zone b.n.y i.y) = 0 ∧ (zone b.n.z i.z) = 0) := by
+    intro ⟨hx, hy, hz⟩
+    apply hout
+    intro a
+    cases a <;> simp only [V3.get] <;> [skip; skip; skip]
+    · unfold zone at hx; split_ifs at hx <;> omega
+    · unfold zone at hy; split_ifs at hy <;> omega
+    · unfold zone at hz; split_ifs at hz <;> omega
+  have := tables_exit ⟨_, zone_lt b.n.x i.x⟩ ⟨_, zone_lt b.n.y i.y⟩ ⟨_, zone_lt b.n.z i.z⟩ hz
+  refine ⟨this.1, this.2.1, fun a => ?_⟩
+  cases a
+  · exact this.2.2.1
+  · exact this.2.2.2.1
+  · exact this.2.2.2.2
+
+/-- the packet is reported INSIDE exactly when the loop ended because the target was reached -/
+theorem trav_outDir_zero_iff (hv : Valid b cells ph) (he : Entry b cells ph s0) :
+    (traverse b cells ph s0).outDir = 0 ↔ ph.tau ≤ (traverse b cells ph s0).last.tauDone := by
+  show (if ph.tau ≤ (traverse b cells ph s0).last.tauDone then ((Gen.TDC02.dirInside : Nat) : Int)
+      else outputDirection b.n (traverse b cells ph s0).last.idx) = 0 ↔ _
+  by_cases ht : ph.tau ≤ (traverse b cells ph s0).last.tauDone
+  · rw [if_pos ht]; exact ⟨fun _ => ht, fun _ => rfl⟩
+  · rw [if_neg ht]
+    have hout : ¬ InRange b.n (traverse b cells ph s0).last.idx := fun hr =>
+      trav_last_done b cells ph s0 hv he ⟨not_le.mp ht, hr⟩
+    have := (trav_outputDirection_valid b cells ph s0 hv he hout).1
+    constructor
+    · intro h0; omega
+    · intro h0; exact absurd h0 ht
+
+/-- **Optical depth accounting.**  A packet that leaves has used up `Σ κ·path` and keeps
+`τ_target − Σ κ·path > 0`; a packet that stops inside has deposited *exactly* `τ_target`
+(the surplus correction), and what the code stores as remaining optical depth is the
+non-positive surplus of the last cell. -/
+theorem trav_tau_account (hv : Valid b cells ph) (he : Entry b cells ph s0) :
+    ((traverse b cells ph s0).outDir ≠ 0 →
+      (traverse b cells ph s0).tauLeft = ph.tau - tauSum cells ph (traverse b cells ph s0).visits
+      ∧ 0 < (traverse b cells ph s0).tauLeft) ∧
+    ((traverse b cells ph s0).outDir = 0 →
+      tauSum cells ph (traverse b cells ph s0).visits = ph.tau
+      ∧ (traverse b cells ph s0).tauLeft ≤ 0) := by
+  have hI := tlast_inv b cells ph s0 hv he
+  have hz := trav_outDir_zero_iff b cells ph s0 hv he
+  rw [tvisits_eq, tauSum_reverse, ttauLeft_eq]
+  constructor
+  · intro hn
+    have hlt := not_le.mp (fun ht => hn (hz.mpr ht))
+    rw [← hI.tauRun hlt]
+    exact ⟨rfl, by linarith⟩
+  · intro h0
+    have hge := hz.mp h0
+    exact ⟨hI.tauStop hge, by linarith⟩
+
+/-- **Estimators**: each visit adds `path·σ·w` to the mean-intensity counter of every ion and
+`path·σ·w·(ν − ν₀)` to the heating counters (ν₀ = 3.288e15 Hz for H, 5.948e15 Hz for He). -/
+theorem trav_estimators (hv : Valid b cells ph) (he : Entry b cells ph s0) :
+    ∀ v ∈ (traverse b cells ph s0).visits, EstOK ph v := by
+  rw [tvisits_eq]
+  intro v hmem
+  rw [List.mem_reverse] at hmem
+  have := march_induct b cells ph (fun s => ∀ v ∈ s.out, EstOK ph v)
+    (fun s hs _ _ => step_est b cells ph s hs) (fuel b.n) (s0)
+    (fun v hm => by rw [he.out0] at hm; cases hm)
+  exact this v hmem
+
+/-- optical depth of the whole line from the start to the block boundary: what the same march
+accumulates when the optical depth test is removed -/
+def fullTauFrom (b : Block K) (cells : Nat → Cell K) (ph : Photon K) (s0 : St K) : K :=
+  (marchFree b cells ph (fuel b.n) (s0)).1.tauDone
+
+/-- `fullTau` really is the sum over the whole line: the free march ends outside the block
+within the fuel, its visits satisfy the segment property, it is on the line, its optical depth
+is `Σ κ·path` over its visits, and it ends on the block faces it crossed. -/
+theorem trav_fullTau_is_line_sum (hv : Valid b cells ph) (he : Entry b cells ph s0) :
+    let r := marchFree b cells ph (fuel b.n) (s0)
+    r.2 = true ∧ ¬ InRange b.n r.1.idx ∧ fullTauFrom b cells ph s0 = tauSum cells ph r.1.out.reverse
+      ∧ SegsFwd b ph (s0).pos 0 r.1.out.reverse
+      ∧ (∀ a, r.1.pos.get a = (s0).pos.get a + pathSum r.1.out.reverse * ph.dir.get a)
+      ∧ OutFaces b ph r.1 := by
+  intro r
+  have hI0 := he.inv
+  have hF0 := inv_to_invF b cells ph _ _ hI0 (entry_tau b cells ph s0 hv he)
+  have hr := he.inRange
+  have hfin : r.2 = true := by
+    refine (marchFree_finishes b cells ph hv _ _ _ hF0).2 hr ?_
+    have := phi_le b ph (s0) hr
+    unfold fuel; push_cast; omega
+  have hF := (marchFree_inv b cells ph hv _ (fuel b.n) _ hF0).1
+  refine ⟨hfin, marchFree_done b cells ph _ _ hfin, ?_, segs_reverse b ph _ _ hF.segs, fun a => ?_, hF.outFaces⟩
+  · rw [tauSum_reverse]; exact hF.tauAcc
+  · rw [pathSum_reverse]; exact hF.onLine a
+
+/-- **The packet stops inside the block exactly when its target optical depth is reached on
+the line through the block.** -/
+theorem trav_stops_inside_iff (hv : Valid b cells ph) (he : Entry b cells ph s0) :
+    (traverse b cells ph s0).outDir = 0 ↔ ph.tau ≤ fullTauFrom b cells ph s0 := by
+  rw [trav_outDir_zero_iff b cells ph s0 hv he]
+  exact march_vs_free b cells ph hv _ _ _ (he.inv)
+    (entry_tau b cells ph s0 hv he)
+
+/-- **Exit geometry.**  A packet that leaves gets a classification `1..26`; reading the
+classification the way `update_photon_position` does (`pinKind`: 1 = lower face, 2 = upper face,
+0 = free), the final position lies on exactly the faces it names and is crossing them outwards;
+on the axes it does not name the position is inside the block and is not on a face the packet
+is travelling towards; the classification passes `is_compatible_output_direction`. -/
+theorem trav_exit_geometric (hv : Valid b cells ph) (he : Entry b cells ph s0) (hout : (traverse b cells ph s0).outDir ≠ 0) :
+    1 ≤ (traverse b cells ph s0).outDir ∧ (traverse b cells ph s0).outDir < 27 ∧
+    (∀ a,
+      (pinKind (traverse b cells ph s0).outDir.toNat a = 1 →
+        (traverse b cells ph s0).last.pos.get a = 0 ∧ ph.dir.get a < 0) ∧
+      (pinKind (traverse b cells ph s0).outDir.toNat a = 2 →
+        (traverse b cells ph s0).last.pos.get a = top b a ∧ 0 < ph.dir.get a) ∧
+      (pinKind (traverse b cells ph s0).outDir.toNat a = 0 →
+        0 ≤ (traverse b cells ph s0).last.pos.get a ∧
+        (traverse b cells ph s0).last.pos.get a ≤ top b a ∧
+        (0 < ph.dir.get a → (traverse b cells ph s0).last.pos.get a < top b a) ∧
+        (ph.dir.get a < 0 → 0 < (traverse b cells ph s0).last.pos.get a))) ∧
+    compatOut (traverse b cells ph s0).outDir.toNat (sgnOf ph.dir.x) (sgnOf ph.dir.y) (sgnOf ph.dir.z)
+      = true := by
+  have hI := tlast_inv b cells ph s0 hv he
+  have hnt : ¬ ph.tau ≤ (traverse b cells ph s0).last.tauDone :=
+    fun ht => hout ((trav_outDir_zero_iff b cells ph s0 hv he).mpr ht)
+  have hnr : ¬ InRange b.n (traverse b cells ph s0).last.idx :=
+    fun hr => trav_last_done b cells ph s0 hv he ⟨not_le.mp hnt, hr⟩
+  have hdir : (traverse b cells ph s0).outDir
+      = outputDirection b.n (traverse b cells ph s0).last.idx := by
+    show (if ph.tau ≤ (traverse b cells ph s0).last.tauDone then _ else _) = _
+    rw [if_neg hnt]; rfl
+  obtain ⟨hv1, hv2, hv3⟩ := trav_outputDirection_valid b cells ph s0 hv he hnr
+  have hstrict : Strict b ph (traverse b cells ph s0).last := by
+    rcases hI.strict with hs | hs | hs
+    · exact hs
+    · exact absurd hs hnr
+    · exact absurd hs hnt
+  have hzone : ∀ (n : Nat) (i : Int), 0 < n →
+      (zone n i = 1 → i < 0) ∧ (zone n i = 2 → (n : Int) ≤ i) ∧ (zone n i = 0 → 0 ≤ i ∧ i < (n : Int)) := by
+    intro n i hn
+    unfold zone
+    refine ⟨fun hk => ?_, fun hk => ?_, fun hk => ?_⟩
+    · split_ifs at hk <;> omega
+    · split_ifs at hk <;> omega
+    · split_ifs at hk <;> omega
+  rw [hdir]
+  refine ⟨hv1, hv2, fun a => ⟨fun hk => ?_, fun hk => ?_, fun hk => ?_⟩, ?_⟩
+  · rw [hv3 a] at hk
+    have := (hI.outFaces a).1 ((hzone _ _ (hv.n_pos a)).1 hk)
+    exact ⟨this.2, this.1⟩
+  · rw [hv3 a] at hk
+    have := (hI.outFaces a).2 ((hzone _ _ (hv.n_pos a)).2.1 hk)
+    exact ⟨this.2, this.1⟩
+  · rw [hv3 a] at hk
+    obtain ⟨h0, h1⟩ := (hzone _ _ (hv.n_pos a)).2.2 hk
+    have hc := hI.inCell a
+    have hcs := hv.cs_pos a
+    have hs := hstrict a h0 h1
+    have h0K : (0 : K) ≤ ((traverse b cells ph s0).last.idx.get a : K) := by exact_mod_cast h0
+    have h1K : ((traverse b cells ph s0).last.idx.get a : K) + 1 ≤ (b.n.get a : K) := by
+      have : (traverse b cells ph s0).last.idx.get a + 1 ≤ (b.n.get a : Int) := by omega
+      exact_mod_cast this
+    refine ⟨?_, ?_, hs.1, hs.2⟩
+    · nlinarith [hc.1]
+    · rw [top_eq]; nlinarith [hc.2]
+  · -- compatibility with the direction, from the generated table
+    have hsx : ∀ a, (zone (b.n.get a) ((traverse b cells ph s0).last.idx.get a) = 1 →
+          sgnOf (ph.dir.get a) = 0) ∧
+        (zone (b.n.get a) ((traverse b cells ph s0).last.idx.get a) = 2 →
+          sgnOf (ph.dir.get a) = 2) := fun a =>
+      ⟨fun hk => sgnOf_neg ((hI.outFaces a).1 ((hzone _ _ (hv.n_pos a)).1 hk)).1,
+       fun hk => sgnOf_pos ((hI.outFaces a).2 ((hzone _ _ (hv.n_pos a)).2.1 hk)).1⟩
+    unfold outputDirection
+    rw [exitMask_eq b.n _ hv.n_pos (fun a => (hI.range a).1)]
+    exact tables_compat_out ⟨_, zone_lt _ _⟩ ⟨_, zone_lt _ _⟩ ⟨_, zone_lt _ _⟩
+      ⟨_, sgnOf_lt ph.dir.x⟩ ⟨_, sgnOf_lt ph.dir.y⟩ ⟨_, sgnOf_lt ph.dir.z⟩
+      (hsx .x).1 (hsx .x).2 (hsx .y).1 (hsx .y).2 (hsx .z).1 (hsx .z).2
+
+/-- corollary: a block without opacity on the line is always crossed -/
+theorem trav_transparent_block_is_crossed (hv : Valid b cells ph) (he : Entry b cells ph s0) (h0 : ∀ c, kappa (cells c) ph = 0) :
+    (traverse b cells ph s0).outDir ≠ 0 := by
+  intro hz
+  have := ((trav_tau_account b cells ph s0 hv he).2 hz).1
+  have hsum : ∀ l : List (Visit K), tauSum cells ph l = 0 := by
+    intro l
+    induction l with
+    | nil => rfl
+    | cons v rest ih => rw [tauSum_cons, ih, h0]; ring
+  rw [hsum] at this
+  exact absurd hv.tau_pos (by rw [← this]; exact lt_irrefl _)
+
+end generic
+
+/-! ### exit geometry of any final state outside the block; entry without pinning;
+`compute_optical_depth` -/
+
+section exitfree
+variable (b : Block K) (cells : Nat → Cell K) (ph : Photon K)
+
+/-- exit geometry from the invariants of a state whose index left the range -/
+theorem exit_facts (hv : Valid b cells ph) (s : St K) (hC : InCell b s) (hR : Range b s)
+    (hO : OutFaces b ph s) (hS : Strict b ph s) (hnr : ¬ InRange b.n s.idx) :
+    1 ≤ outputDirection b.n s.idx ∧ outputDirection b.n s.idx < 27 ∧
+    (∀ a,
+      (pinKind (outputDirection b.n s.idx).toNat a = 1 → s.pos.get a = 0 ∧ ph.dir.get a < 0) ∧
+      (pinKind (outputDirection b.n s.idx).toNat a = 2 → s.pos.get a = top b a ∧ 0 < ph.dir.get a) ∧
+      (pinKind (outputDirection b.n s.idx).toNat a = 0 →
+        0 ≤ s.pos.get a ∧ s.pos.get a ≤ top b a ∧
+        (0 < ph.dir.get a → s.pos.get a < top b a) ∧ (ph.dir.get a < 0 → 0 < s.pos.get a))) ∧
+    compatOut (outputDirection b.n s.idx).toNat (sgnOf ph.dir.x) (sgnOf ph.dir.y) (sgnOf ph.dir.z)
+      = true := by
+  have hzone : ∀ (n : Nat) (i : Int), 0 < n →
+      (zone n i = 1 → i < 0) ∧ (zone n i = 2 → (n : Int) ≤ i) ∧ (zone n i = 0 → 0 ≤ i ∧ i < (n : Int)) := by
+    intro n i hn
+    unfold zone
+    refine ⟨fun hk => ?_, fun hk => ?_, fun hk => ?_⟩
+    · split_ifs at hk <;> omega
+    · split_ifs at hk <;> omega
+    · split_ifs at hk <;> omega
+  have hmask := exitMask_eq b.n s.idx hv.n_pos (fun a => (hR a).1)
+  have hz : ¬ ((zone b.n.x s.idx.x) = 0 ∧ (zone b.n.y s.idx.y) = 0 ∧ (zone b.n.z s.idx.z) = 0) := by
+    intro ⟨hx, hy, hz⟩
+    apply hnr
+    intro a
+    have := hv.n_pos a
+    cases a
+    · exact (hzone _ _ (hv.n_pos .x)).2.2 hx
+    · exact (hzone _ _ (hv.n_pos .y)).2.2 hy
+    · exact (hzone _ _ (hv.n_pos .z)).2.2 hz
+  have htab := tables_exit ⟨_, zone_lt b.n.x s.idx.x⟩ ⟨_, zone_lt b.n.y s.idx.y⟩ ⟨_, zone_lt b.n.z s.idx.z⟩ hz
+  have hv3 : ∀ a, pinKind (outputDirection b.n s.idx).toNat a = zone (b.n.get a) (s.idx.get a) := by
+    intro a
+    unfold outputDirection; rw [hmask]
+    cases a
+    · exact htab.2.2.1
+    · exact htab.2.2.2.1
+    · exact htab.2.2.2.2
+  have hv1 : 1 ≤ outputDirection b.n s.idx := by unfold outputDirection; rw [hmask]; exact htab.1
+  have hv2 : outputDirection b.n s.idx < 27 := by unfold outputDirection; rw [hmask]; exact htab.2.1
+  refine ⟨hv1, hv2, fun a => ⟨fun hk => ?_, fun hk => ?_, fun hk => ?_⟩, ?_⟩
+  · rw [hv3 a] at hk
+    have := (hO a).1 ((hzone _ _ (hv.n_pos a)).1 hk)
+    exact ⟨this.2, this.1⟩
+  · rw [hv3 a] at hk
+    have := (hO a).2 ((hzone _ _ (hv.n_pos a)).2.1 hk)
+    exact ⟨this.2, this.1⟩
+  · rw [hv3 a] at hk
+    obtain ⟨h0, h1⟩ := (hzone _ _ (hv.n_pos a)).2.2 hk
+    have hc := hC a
+    have hcs := hv.cs_pos a
+    have hs := hS a h0 h1
+    have h0K : (0 : K) ≤ (s.idx.get a : K) := by exact_mod_cast h0
+    have h1K : (s.idx.get a : K) + 1 ≤ (b.n.get a : K) := by
+      have : s.idx.get a + 1 ≤ (b.n.get a : Int) := by omega
+      exact_mod_cast this
+    refine ⟨?_, ?_, hs.1, hs.2⟩
+    · nlinarith [hc.1]
+    · rw [top_eq]; nlinarith [hc.2]
+  · have hsx : ∀ a, (zone (b.n.get a) (s.idx.get a) = 1 → sgnOf (ph.dir.get a) = 0) ∧
+        (zone (b.n.get a) (s.idx.get a) = 2 → sgnOf (ph.dir.get a) = 2) := fun a =>
+      ⟨fun hk => sgnOf_neg ((hO a).1 ((hzone _ _ (hv.n_pos a)).1 hk)).1,
+       fun hk => sgnOf_pos ((hO a).2 ((hzone _ _ (hv.n_pos a)).2.1 hk)).1⟩
+    unfold outputDirection
+    rw [hmask]
+    exact tables_compat_out ⟨_, zone_lt _ _⟩ ⟨_, zone_lt _ _⟩ ⟨_, zone_lt _ _⟩
+      ⟨_, sgnOf_lt ph.dir.x⟩ ⟨_, sgnOf_lt ph.dir.y⟩ ⟨_, sgnOf_lt ph.dir.z⟩
+      (hsx .x).1 (hsx .x).2 (hsx .y).1 (hsx .y).2 (hsx .z).1 (hsx .z).2
+
+/-- the loop-entry state of `interact` is admissible -/
+theorem entry_interact (inDir : Nat) (h : Hyp b cells ph inDir) : Entry b cells ph (initSt b ph inDir) :=
+  ⟨init_inv b cells ph inDir h.valid h.start, init_inRange b cells ph inDir h.valid h.start,
+   by show (0.0 : K) = 0; exact lit0, rfl⟩
+
+/-- What `propagate` and `compute_optical_depth` need at entry: they do NOT move the position
+onto the faces named by the classification, so the position handed over must already lie in the
+closed cell that `get_start_index` selects — in the closed block on axes whose index is
+computed, within one cell of the lower / upper face on axes whose index is `0` / `n-1`. -/
+structure StartNoPin (b : Block K) (ph : Photon K) (inDir : Nat) : Prop where
+  dir_ok : inDir < 27
+  inv_ok : ∀ a, b.inv.get a * b.cs.get a = 1
+  computed : ∀ a, idxKind inDir a = 0 →
+    0 ≤ ph.pos.get a - b.anchor.get a ∧ ph.pos.get a - b.anchor.get a ≤ top b a
+  lower : ∀ a, idxKind inDir a = 1 →
+    0 ≤ ph.pos.get a - b.anchor.get a ∧ ph.pos.get a - b.anchor.get a ≤ b.cs.get a
+  upper : ∀ a, idxKind inDir a = 2 →
+    top b a - b.cs.get a ≤ ph.pos.get a - b.anchor.get a ∧ ph.pos.get a - b.anchor.get a ≤ top b a
+
+/-- hypotheses of the theorems about `propagate` and `compute_optical_depth` -/
+structure HypNoPin (b : Block K) (cells : Nat → Cell K) (ph : Photon K) (inDir : Nat) : Prop where
+  valid : Valid b cells ph
+  start : StartNoPin b ph inDir
+
+theorem initNoPin_axis (inDir : Nat) (hv : Valid b cells ph) (hs : StartNoPin b ph inDir) (a : Ax) :
+    (0 ≤ (initStNoPin b ph inDir).idx.get a ∧ (initStNoPin b ph inDir).idx.get a < (b.n.get a : Int)) ∧
+    (((initStNoPin b ph inDir).idx.get a : K) * b.cs.get a ≤ (initStNoPin b ph inDir).pos.get a ∧
+      (initStNoPin b ph inDir).pos.get a ≤ (((initStNoPin b ph inDir).idx.get a : K) + 1) * b.cs.get a) := by
+  have ht := tables_entry_ax inDir hs.dir_ok a
+  have hcs := hv.cs_pos a
+  have hn := hv.n_pos a
+  have hnK : (1 : K) ≤ (b.n.get a : K) := by exact_mod_cast hn
+  have hpos : (initStNoPin b ph inDir).pos.get a = ph.pos.get a - b.anchor.get a := by
+    show (relPos b ph.pos).get a = _
+    unfold relPos; rw [V3.get_of]
+  have hidx : (initStNoPin b ph inDir).idx.get a = startIdxAxis b inDir (relPos b ph.pos) a := by
+    show (startIdx b inDir _).get a = _
+    unfold startIdx; rw [V3.get_of]
+  have hrel2 : (relPos b ph.pos).get a = ph.pos.get a - b.anchor.get a := by
+    unfold relPos; rw [V3.get_of]
+  rw [hpos, hidx]
+  unfold startIdxAxis
+  have hk : idxKind inDir a = 0 ∨ idxKind inDir a = 1 ∨ idxKind inDir a = 2 := by
+    have := ht.2; have := ht.1; omega
+  rcases hk with hk | hk | hk
+  · rw [hk]
+    have hown := hs.computed a hk
+    simp only [hrel2]
+    set r := ph.pos.get a - b.anchor.get a with hr
+    set x := r * b.inv.get a with hx
+    have hinv := hs.inv_ok a
+    have hinvpos : 0 < b.inv.get a := by
+      by_contra h
+      have : b.inv.get a * b.cs.get a ≤ 0 := mul_nonpos_of_nonpos_of_nonneg (not_lt.mp h) hcs.le
+      linarith
+    have hx0 : 0 ≤ x := mul_nonneg hown.1 hinvpos.le
+    have hxr : x * b.cs.get a = r := by rw [hx, mul_assoc, hinv, mul_one]
+    have hxn : x ≤ (b.n.get a : K) := by
+      have h2 := hown.2; rw [top_eq, ← hxr] at h2
+      exact le_of_mul_le_mul_right h2 hcs
+    obtain ⟨f1, f2, f3⟩ := floorUpTo_spec (b.n.get a) x hx0
+    unfold clampIdx
+    by_cases hlast : floorUpTo (b.n.get a) x = b.n.get a
+    · have hxe : x = (b.n.get a : K) := le_antisymm hxn (by rw [hlast] at f1; exact f1)
+      rw [hlast, if_pos (by omega)]
+      refine ⟨⟨by omega, by omega⟩, ?_, ?_⟩
+      · rw [← hxr, hxe]; push_cast; nlinarith
+      · rw [← hxr, hxe]; push_cast; nlinarith
+    · have f5 : floorUpTo (b.n.get a) x < b.n.get a := lt_of_le_of_ne f2 hlast
+      have f4 : x < ((floorUpTo (b.n.get a) x : Nat) : K) + 1 := by
+        rcases f3 with f3 | f3
+        · exact f3
+        · exact absurd f3 hlast
+      rw [if_neg (by omega)]
+      refine ⟨⟨by omega, by exact_mod_cast f5⟩, ?_, ?_⟩
+      · rw [← hxr]; push_cast; exact mul_le_mul_of_nonneg_right f1 hcs.le
+      · rw [← hxr]; push_cast; exact mul_le_mul_of_nonneg_right f4.le hcs.le
+  · rw [hk]
+    show (0 ≤ (0 : Int) ∧ (0 : Int) < (b.n.get a : Int)) ∧
+      (((0 : Int) : K) * b.cs.get a ≤ ph.pos.get a - b.anchor.get a ∧
+        ph.pos.get a - b.anchor.get a ≤ (((0 : Int) : K) + 1) * b.cs.get a)
+    have h := hs.lower a hk
+    refine ⟨⟨le_refl _, by exact_mod_cast hn⟩, ?_, ?_⟩
+    · simpa using h.1
+    · simpa using h.2
+  · rw [hk]
+    show (0 ≤ (b.n.get a : Int) - 1 ∧ (b.n.get a : Int) - 1 < (b.n.get a : Int)) ∧
+      ((((b.n.get a : Int) - 1 : Int) : K) * b.cs.get a ≤ ph.pos.get a - b.anchor.get a ∧
+        ph.pos.get a - b.anchor.get a ≤ ((((b.n.get a : Int) - 1 : Int) : K) + 1) * b.cs.get a)
+    have h := hs.upper a hk
+    rw [top_eq] at h
+    refine ⟨⟨by omega, by omega⟩, ?_, ?_⟩
+    · push_cast; linarith [h.1]
+    · push_cast; linarith [h.2]
+
+/-- the loop-entry state of `propagate` / `compute_optical_depth` is admissible -/
+theorem entry_noPin (inDir : Nat) (h : HypNoPin b cells ph inDir) :
+    Entry b cells ph (initStNoPin b ph inDir) := by
+  have hr : InRange b.n (initStNoPin b ph inDir).idx :=
+    fun a => (initNoPin_axis b cells ph inDir h.valid h.start a).1
+  have htau : (initStNoPin b ph inDir).tauDone = 0 := by show (0.0 : K) = 0; exact lit0
+  have hout : (initStNoPin b ph inDir).out = [] := rfl
+  refine ⟨⟨fun a => (initNoPin_axis b cells ph inDir h.valid h.start a).2, range_of_inRange b hr,
+    outFaces_of_inRange b ph hr, fun a => ?_, ?_, fun _ => ?_, fun h' => ?_, Or.inr (Or.inl hr)⟩, hr, htau, hout⟩
+  · rw [hout]; simp
+  · rw [hout]; trivial
+  · rw [hout, htau]; simp
+  · rw [htau] at h'; exact absurd h.valid.tau_pos (not_lt.mpr h')
+
+/-- when the position handed over already sits where `update_photon_position` would put it,
+`interact` and `propagate`/`compute_optical_depth` start from the same loop-entry state -/
+theorem initSt_eq_noPin (inDir : Nat)
+    (hpin : pinPos b inDir (relPos b ph.pos) = relPos b ph.pos) :
+    initSt b ph inDir = initStNoPin b ph inDir := by
+  unfold initSt initStNoPin; simp only [hpin]
+
+/-- everything about the free march from an admissible entry state (the loop of
+`compute_optical_depth`): it ends outside the block within the fuel, on the line, with the
+optical depth of its passes, on the faces it crossed -/
+theorem free_spec (hv : Valid b cells ph) (s0 : St K) (he : Entry b cells ph s0) :
+    (marchFree b cells ph (fuel b.n) s0).2 = true ∧
+    ¬ InRange b.n (marchFree b cells ph (fuel b.n) s0).1.idx ∧
+    InvF b cells ph s0.pos (marchFree b cells ph (fuel b.n) s0).1 ∧
+    Strict b ph (marchFree b cells ph (fuel b.n) s0).1 := by
+  have hF0 := inv_to_invF b cells ph _ _ he.inv (entry_tau b cells ph s0 hv he)
+  have hfin : (marchFree b cells ph (fuel b.n) s0).2 = true := by
+    refine (marchFree_finishes b cells ph hv _ _ _ hF0).2 he.inRange ?_
+    have := phi_le b ph s0 he.inRange
+    unfold fuel; push_cast; omega
+  have hF := (marchFree_inv b cells ph hv _ (fuel b.n) _ hF0).1
+  have hnr := marchFree_done b cells ph _ _ hfin
+  refine ⟨hfin, hnr, hF, ?_⟩
+  rcases hF.strict with h | h
+  · exact h
+  · exact absurd h hnr
+
+end exitfree
 
 end CMacVerif.RayMarch
